@@ -82,7 +82,11 @@ impl Value {
     pub fn short(&self) -> String {
         let s = format!("{:?}", self);
         if s.len() > 300 {
-            format!("{}…", &s[..300])
+            let mut k = 300;
+            while !s.is_char_boundary(k) {
+                k -= 1;
+            }
+            format!("{}…", &s[..k])
         } else {
             s
         }
